@@ -1,7 +1,7 @@
 (* Extraction of the executable model, the cipher parameters instantiated by
    the Gallina DES / AES.  Only ExtrOcamlBasic's directives are in force; N,
    positive, nat and Z stay Coq inductives. *)
-From Psec Require Import Lib.Base Cipher.Cipher Cipher.DES Cipher.AES
+From Psec Require Import Lib.Base Cipher.Cipher Cipher.DES Cipher.AES Cipher.AESok
   Model.Tools Model.Mac Model.Cvv Model.Pin Model.Pinblock Model.Tr31.
 Require Extraction.
 Require ExtrOcamlBasic.
@@ -20,14 +20,14 @@ Definition x_encrypt_tdes_cbc := encrypt_cbc real_tdes.
 Definition x_encrypt_tdes_ecb := encrypt_ecb real_tdes.
 Definition x_decrypt_tdes_cbc := decrypt_cbc real_tdes.
 Definition x_decrypt_tdes_ecb := decrypt_ecb real_tdes.
-Definition x_encrypt_aes_cbc := encrypt_cbc real_aes.
-Definition x_encrypt_aes_ecb := encrypt_ecb real_aes.
-Definition x_decrypt_aes_cbc := decrypt_cbc real_aes.
-Definition x_decrypt_aes_ecb := decrypt_ecb real_aes.
+Definition x_encrypt_aes_cbc := encrypt_cbc real_aes_n.
+Definition x_encrypt_aes_ecb := encrypt_ecb real_aes_n.
+Definition x_decrypt_aes_cbc := decrypt_cbc real_aes_n.
+Definition x_decrypt_aes_ecb := decrypt_ecb real_aes_n.
 Definition x_pad_iso_1 := pad_iso_1.
 Definition x_pad_iso_2 := pad_iso_2.
 Definition x_pad_iso_3 := pad_iso_3.
-Definition x_generate_cbc_mac := generate_cbc_mac real_tdes real_aes.
+Definition x_generate_cbc_mac := generate_cbc_mac real_tdes real_aes_n.
 Definition x_generate_retail_mac := generate_retail_mac real_tdes.
 Definition x_generate_cvv := generate_cvv real_tdes.
 Definition x_generate_cvv_legacy := generate_cvv_legacy real_tdes.
@@ -39,23 +39,23 @@ Definition x_encode_pinblock_iso_2 := encode_pinblock_iso_2.
 Definition x_encode_pinblock_iso_3 := encode_pinblock_iso_3.
 Definition x_encode_pin_field_iso_4 := encode_pin_field_iso_4.
 Definition x_encode_pan_field_iso_4 := encode_pan_field_iso_4.
-Definition x_encipher_pinblock_iso_4 := encipher_pinblock_iso_4 real_aes.
+Definition x_encipher_pinblock_iso_4 := encipher_pinblock_iso_4 real_aes_n.
 Definition x_decode_pinblock_iso_0 := decode_pinblock_iso_0.
 Definition x_decode_pinblock_iso_2 := decode_pinblock_iso_2.
 Definition x_decode_pinblock_iso_3 := decode_pinblock_iso_3.
 Definition x_decode_pin_field_iso_4 := decode_pin_field_iso_4.
-Definition x_decipher_pinblock_iso_4 := decipher_pinblock_iso_4 real_aes.
-Definition x_decrypt_aes_ecb_raw := decrypt_ecb real_aes.
+Definition x_decipher_pinblock_iso_4 := decipher_pinblock_iso_4 real_aes_n.
+Definition x_decrypt_aes_ecb_raw := decrypt_ecb real_aes_n.
 
 Definition x_new_header := new_header.
 Definition x_default_header := default_header.
-Definition x_run := run real_tdes real_aes.
-Definition x_step := step real_tdes real_aes.
+Definition x_run := run real_tdes real_aes_n.
+Definition x_step := step real_tdes real_aes_n.
 Definition x_mkState := mkState.
-Definition x_unwrap := unwrap real_tdes real_aes.
-Definition x_unwrap_legacy := unwrap_legacy real_tdes real_aes.
-Definition x_unwrap_clear := kb_unwrap_clear real_tdes real_aes.
-Definition x_wrap_str := wrap_str real_tdes real_aes.
+Definition x_unwrap := unwrap real_tdes real_aes_n.
+Definition x_unwrap_legacy := unwrap_legacy real_tdes real_aes_n.
+Definition x_unwrap_clear := kb_unwrap_clear real_tdes real_aes_n.
+Definition x_wrap_str := wrap_str real_tdes real_aes_n.
 Definition x_header_str := header_str.
 
 (* Python primitives, exposed for the conformance test against CPython *)
